@@ -16,13 +16,21 @@ use serde_json::Value as Json;
 #[derive(Debug, Clone, Hash, PartialEq, Eq, Serialize, Deserialize)]
 pub enum Case {
     /// a message configuration; `twist` makes it non-representable on the wire (0 = none)
-    Config { msg: RMsg, ts: (u32, u32), twist: u8 },
+    Config {
+        msg: RMsg,
+        ts: (u32, u32),
+        twist: u8,
+    },
     /// an argument whose kind is bool / float and a value of `val`'s variant
     Valid { kind: RKind, val: RVal },
 }
 
 fn config_of(msg: &RMsg, twist: u8) -> (MessageConfig, bool) {
-    let mut ext = msg.ext.as_ref().map(|e| ExtendedHeaderConfig { message_type: message_type_of(e.msin), app_id: e.apid.clone(), context_id: e.ctid.clone() });
+    let mut ext = msg.ext.as_ref().map(|e| ExtendedHeaderConfig {
+        message_type: message_type_of(e.msin),
+        app_id: e.apid.clone(),
+        context_id: e.ctid.clone(),
+    });
     let mut payload = payload_to_crate(msg);
     let mut representable = true;
     match twist {
@@ -76,7 +84,11 @@ fn config_of(msg: &RMsg, twist: u8) -> (MessageConfig, bool) {
         MessageConfig {
             version: msg.htyp >> 5,
             counter: msg.mcnt,
-            endianness: if msg.big_endian() { Endianness::Big } else { Endianness::Little },
+            endianness: if msg.big_endian() {
+                Endianness::Big
+            } else {
+                Endianness::Little
+            },
             ecu_id: msg.ecu.clone(),
             session_id: msg.seid,
             timestamp: msg.tmsp,
@@ -94,23 +106,49 @@ fn check_config(msg: &RMsg, ts: (u32, u32), twist: u8) -> CheckResult {
         if !msg.is_network_trace() {
             for a in args {
                 let ca = arg_to_crate(a);
-                let (l, be, le) = guard(|| (ca.len(), ca.as_bytes::<BigEndian>().len(), ca.as_bytes::<LittleEndian>().len()))
-                    .map_err(|p| Violation::from_panic("Argument::len / as_bytes", &p))?;
+                let (l, be, le) = guard(|| {
+                    (
+                        ca.len(),
+                        ca.as_bytes::<BigEndian>().len(),
+                        ca.as_bytes::<LittleEndian>().len(),
+                    )
+                })
+                .map_err(|p| Violation::from_panic("Argument::len / as_bytes", &p))?;
                 if l != be || l != le {
-                    return Err(viol!(format!("arg-len:{}", g::kind_label(a.ty.kind)), "Argument::len() = {} but as_bytes gives {} (BE) / {} (LE) bytes for {}", l, be, le, short_dbg(&ca)));
+                    return Err(viol!(
+                        format!("arg-len:{}", g::kind_label(a.ty.kind)),
+                        "Argument::len() = {} but as_bytes gives {} (BE) / {} (LE) bytes for {}",
+                        l,
+                        be,
+                        le,
+                        short_dbg(&ca)
+                    ));
                 }
             }
         }
     }
     let (conf, representable) = config_of(msg, twist);
-    let storage = msg.storage.as_ref().map(|s| StorageHeader { timestamp: DltTimeStamp { seconds: s.secs, microseconds: s.micros }, ecu_id: s.ecu.clone() });
+    let storage = msg.storage.as_ref().map(|s| StorageHeader {
+        timestamp: DltTimeStamp {
+            seconds: s.secs,
+            microseconds: s.micros,
+        },
+        ecu_id: s.ecu.clone(),
+    });
     let conf2 = conf.clone();
-    let m = guard(move || Message::new(conf2, storage)).map_err(|p| Violation::from_panic("Message::new", &p))?;
+    let m = guard(move || Message::new(conf2, storage))
+        .map_err(|p| Violation::from_panic("Message::new", &p))?;
     let want_pl = refcodec::payload_len(msg);
     if twist != 3 && m.header.payload_length as usize != want_pl {
-        return Err(viol!(format!("new:{}:payload-length", kind), "Message::new recorded payload_length {} but the serialised payload has {} bytes", m.header.payload_length, want_pl));
+        return Err(viol!(
+            format!("new:{}:payload-length", kind),
+            "Message::new recorded payload_length {} but the serialised payload has {} bytes",
+            m.header.payload_length,
+            want_pl
+        ));
     }
-    let bytes = guard(|| m.as_bytes()).map_err(|p| Violation::from_panic("Message::as_bytes", &p))?;
+    let bytes =
+        guard(|| m.as_bytes()).map_err(|p| Violation::from_panic("Message::as_bytes", &p))?;
     let sh = if m.storage_header.is_some() { 16 } else { 0 };
     // the recorded payload length is the number of payload bytes the writer actually emits (whatever the configuration)
     let emitted_pl = bytes.len() as i64 - sh as i64 - headers_len(from_crate(&m).msg.htyp) as i64;
@@ -118,7 +156,12 @@ fn check_config(msg: &RMsg, ts: (u32, u32), twist: u8) -> CheckResult {
         return Err(viol!(format!("new:{}:payload-length-vs-emitted", kind), "Message::new recorded payload_length {} but as_bytes emits {} payload bytes (twist {})", m.header.payload_length, emitted_pl, twist));
     }
     if m.byte_len() as usize != bytes.len() - sh {
-        return Err(viol!(format!("new:{}:byte-len", kind), "byte_len() = {} but the serialisation without storage header has {} bytes", m.byte_len(), bytes.len() - sh));
+        return Err(viol!(
+            format!("new:{}:byte-len", kind),
+            "byte_len() = {} but the serialisation without storage header has {} bytes",
+            m.byte_len(),
+            bytes.len() - sh
+        ));
     }
     if let Some(e) = &m.extended_header {
         let (want_verbose, want_noar) = match &conf.payload {
@@ -135,48 +178,122 @@ fn check_config(msg: &RMsg, ts: (u32, u32), twist: u8) -> CheckResult {
         }
     }
     if m.header.has_extended_header != conf.extended_header_info.is_some() {
-        return Err(viol!("new:ueh-flag", "has_extended_header = {} but extended header info present = {}", m.header.has_extended_header, conf.extended_header_info.is_some()));
+        return Err(viol!(
+            "new:ueh-flag",
+            "has_extended_header = {} but extended header info present = {}",
+            m.header.has_extended_header,
+            conf.extended_header_info.is_some()
+        ));
     }
     if representable {
-        let res = guard(|| dlt_message(&bytes, None, m.storage_header.is_some()).map(|(r, pm)| (r.len(), pm)))
-            .map_err(|p| Violation::from_panic("dlt_message on a built message", &p))?;
+        let res = guard(|| {
+            dlt_message(&bytes, None, m.storage_header.is_some()).map(|(r, pm)| (r.len(), pm))
+        })
+        .map_err(|p| Violation::from_panic("dlt_message on a built message", &p))?;
         match res {
             Ok((0, ParsedMessage::Item(m2))) => {
-                msg_eq_bits(&m, &m2).map_err(|d| viol!(format!("new:{}:parse-back-differs", kind), "built message does not parse back to itself: {} (bytes={})", d, hex_short(&bytes)))?;
+                msg_eq_bits(&m, &m2).map_err(|d| {
+                    viol!(
+                        format!("new:{}:parse-back-differs", kind),
+                        "built message does not parse back to itself: {} (bytes={})",
+                        d,
+                        hex_short(&bytes)
+                    )
+                })?;
             }
-            other => return Err(viol!(format!("new:{}:parse-back", kind), "built message does not parse back: {} (bytes={})", short_dbg(&other), hex_short(&bytes))),
+            other => {
+                return Err(viol!(
+                    format!("new:{}:parse-back", kind),
+                    "built message does not parse back: {} (bytes={})",
+                    short_dbg(&other),
+                    hex_short(&bytes)
+                ))
+            }
         }
     }
     // storage-header helper
-    let plain = Message { storage_header: None, ..m.clone() };
-    let plain_bytes = guard(|| plain.as_bytes()).map_err(|p| Violation::from_panic("Message::as_bytes", &p))?;
-    let with = guard(|| plain.clone().add_storage_header(Some(DltTimeStamp { seconds: ts.0, microseconds: ts.1 })).as_bytes())
-        .map_err(|p| Violation::from_panic("add_storage_header(Some)", &p))?;
+    let plain = Message {
+        storage_header: None,
+        ..m.clone()
+    };
+    let plain_bytes =
+        guard(|| plain.as_bytes()).map_err(|p| Violation::from_panic("Message::as_bytes", &p))?;
+    let with = guard(|| {
+        plain
+            .clone()
+            .add_storage_header(Some(DltTimeStamp {
+                seconds: ts.0,
+                microseconds: ts.1,
+            }))
+            .as_bytes()
+    })
+    .map_err(|p| Violation::from_panic("add_storage_header(Some)", &p))?;
     let ecu = msg.ecu.clone().unwrap_or_else(|| "ECU".to_string());
-    let mut want = refcodec::encode_storage(&RStorage { secs: ts.0, micros: ts.1, ecu: ecu.clone() });
+    let mut want = refcodec::encode_storage(&RStorage {
+        secs: ts.0,
+        micros: ts.1,
+        ecu: ecu.clone(),
+    });
     want.extend_from_slice(&plain_bytes);
     if with != want {
-        return Err(viol!("add-storage-header", "add_storage_header(Some({:?})) gives {} but expected {}", ts, hex_short(&with[..with.len().min(40)]), hex_short(&want[..want.len().min(40)])));
+        return Err(viol!(
+            "add-storage-header",
+            "add_storage_header(Some({:?})) gives {} but expected {}",
+            ts,
+            hex_short(&with[..with.len().min(40)]),
+            hex_short(&want[..want.len().min(40)])
+        ));
     }
     // the same on the message as built (it may already carry a storage header: that one is replaced)
-    let restamped = guard(|| m.clone().add_storage_header(Some(DltTimeStamp { seconds: ts.0, microseconds: ts.1 })).as_bytes())
-        .map_err(|p| Violation::from_panic("add_storage_header(Some) on a message with storage header", &p))?;
+    let restamped = guard(|| {
+        m.clone()
+            .add_storage_header(Some(DltTimeStamp {
+                seconds: ts.0,
+                microseconds: ts.1,
+            }))
+            .as_bytes()
+    })
+    .map_err(|p| {
+        Violation::from_panic(
+            "add_storage_header(Some) on a message with storage header",
+            &p,
+        )
+    })?;
     if restamped != want {
         return Err(viol!(
             "add-storage-header:restamp",
             "add_storage_header(Some({:?})) on a message that {} gives {} but expected {}",
-            ts, if m.storage_header.is_some() { "already carries a storage header" } else { "has none" }, hex_short(&restamped[..restamped.len().min(40)]), hex_short(&want[..want.len().min(40)])
+            ts,
+            if m.storage_header.is_some() {
+                "already carries a storage header"
+            } else {
+                "has none"
+            },
+            hex_short(&restamped[..restamped.len().min(40)]),
+            hex_short(&want[..want.len().min(40)])
         ));
     }
-    let now = guard(|| plain.clone().add_storage_header(None).as_bytes()).map_err(|p| Violation::from_panic("add_storage_header(None)", &p))?;
+    let now = guard(|| plain.clone().add_storage_header(None).as_bytes())
+        .map_err(|p| Violation::from_panic("add_storage_header(None)", &p))?;
     let want_tail = &want[12..];
     if now.len() != plain_bytes.len() + 16 || &now[..4] != b"DLT\x01" || &now[12..] != want_tail {
-        return Err(viol!("add-storage-header-now", "add_storage_header(None) gives {} ", hex_short(&now[..now.len().min(40)])));
+        return Err(viol!(
+            "add-storage-header-now",
+            "add_storage_header(None) gives {} ",
+            hex_short(&now[..now.len().min(40)])
+        ));
     }
     let has_fx_or_vari = matches!(&msg.payload, RPayload::Verbose(a) if a.iter().any(|x| x.ty.vari || x.fixp.is_some()));
-    let mut pass = Pass::new(want_pl > 0 && (has_fx_or_vari || !matches!(msg.payload, RPayload::Verbose(_)) || msg.is_network_trace()));
+    let mut pass = Pass::new(
+        want_pl > 0
+            && (has_fx_or_vari
+                || !matches!(msg.payload, RPayload::Verbose(_))
+                || msg.is_network_trace()),
+    );
     pass.classes = g::classes_of(msg);
-    Ok(pass.class_if(!representable, "non-representable-config").class_if(has_fx_or_vari, "vari-or-fixed-point"))
+    Ok(pass
+        .class_if(!representable, "non-representable-config")
+        .class_if(has_fx_or_vari, "vari-or-fixed-point"))
 }
 
 fn check_valid(kind: RKind, val: &RVal) -> CheckResult {
@@ -190,7 +307,12 @@ fn check_valid(kind: RKind, val: &RVal) -> CheckResult {
         RVal::Raw(_) => RKind::Raw,
     };
     let arg = Argument {
-        type_info: type_to_crate(&RType { kind, vari: false, trai: false, scod: 0 }),
+        type_info: type_to_crate(&RType {
+            kind,
+            vari: false,
+            trai: false,
+            scod: 0,
+        }),
         name: None,
         unit: None,
         fixed_point: None,
@@ -200,9 +322,21 @@ fn check_valid(kind: RKind, val: &RVal) -> CheckResult {
     let typed = matches!(kind, RKind::Bool | RKind::Float(_));
     let matches_kind = vk == kind;
     if typed && got != matches_kind {
-        return Err(viol!(format!("valid:{}", g::kind_label(kind)), "valid() = {} for kind {:?} carrying {:?}", got, kind, arg.value));
+        return Err(viol!(
+            format!("valid:{}", g::kind_label(kind)),
+            "valid() = {} for kind {:?} carrying {:?}",
+            got,
+            kind,
+            arg.value
+        ));
     }
-    Ok(Pass::new(typed && !matches_kind).class(if typed { "valid:typed-kind" } else { "valid:other-kind" }).class_if(typed && !matches_kind, "valid:mismatch"))
+    Ok(Pass::new(typed && !matches_kind)
+        .class(if typed {
+            "valid:typed-kind"
+        } else {
+            "valid:other-kind"
+        })
+        .class_if(typed && !matches_kind, "valid:mismatch"))
 }
 
 pub fn check(c: &Case) -> CheckResult {
@@ -230,7 +364,13 @@ pub fn run(run: &Run) {
     );
     run.assume("parse-back is asserted only for representable configurations (payload kind consistent with extended-header presence and message type); add_storage_header(None): the clock value is not asserted");
     run.regressions(&replay);
-    run.random("configs", run.cases(300_000, 4_000_000), 0.25, strategy, check);
+    run.random(
+        "configs",
+        run.cases(300_000, 4_000_000),
+        0.25,
+        strategy,
+        check,
+    );
 }
 
 pub fn replay(_section: &str, case: &Json) -> Option<CheckResult> {
